@@ -650,5 +650,10 @@ func TestVerifC06(t *testing.T) {
 	}
 	jobs = append(jobs, mc.ExploreJob(mc.Options{Job: "headers", MaxDev: -1}, hdrRun))
 
+	etcdL := 2
+	if mc.GetEnv().Thorough() {
+		etcdL = 3
+	}
+	jobs = append(jobs, c06EtcdJob(etcdL))
 	mc.RunJobs("C06", jobs)
 }
